@@ -507,4 +507,105 @@ theorem mergeOne_lookup (o : SOps S) (st : Strategy) (t : Box S V) (ht : (keys t
 
 end
 
+
+theorem zip_map_fst_snd {α β : Type} (l : List (α × β)) : (l.map (·.1)).zip (l.map (·.2)) = l := by
+  induction l with
+  | nil => rfl
+  | cons p rest ih => simp [ih]
+
+section
+variable {S V : Type}
+
+/-- a missing source is rejected (`KeyError`), whatever else is in the list -/
+theorem popAll_missing (db : Box S V) (ns : List String) (h : ∃ n ∈ ns, n ∉ keys db) : popAll db ns = .error .badInput := by
+  induction ns generalizing db with
+  | nil => obtain ⟨n, hn, _⟩ := h; simp at hn
+  | cons m rest ih =>
+    unfold popAll
+    cases hl : lookup db m with
+    | none => rfl
+    | some v =>
+      simp only []
+      obtain ⟨n, hn, hnk⟩ := h
+      have hne : n ≠ m := by
+        intro e; subst e
+        exact hnk (by
+          have := lookup_some_mem hl
+          exact List.mem_map_of_mem (f := (·.1)) this)
+      have hn' : n ∈ rest := by
+        rcases List.mem_cons.mp hn with h | h
+        · exact absurd h hne
+        · exact h
+      rw [ih (delKey db m) ⟨n, hn', by rw [keys_delKey]; intro hm; exact hnk (List.mem_filter.mp hm).1⟩]
+      rfl
+
+theorem removeNames_missing (db : Box S V) (ns : List String) (h : ∃ n ∈ ns, n ∉ keys db) :
+    removeNames db ns = .error .badInput := by
+  induction ns generalizing db with
+  | nil => obtain ⟨n, hn, _⟩ := h; simp at hn
+  | cons m rest ih =>
+    unfold removeNames
+    by_cases hc : (keys db).contains m = true
+    · simp only [hc, if_true]
+      obtain ⟨n, hn, hnk⟩ := h
+      have hne : n ≠ m := by
+        intro e; subst e; exact hnk (by simpa using hc)
+      have hn' : n ∈ rest := by
+        rcases List.mem_cons.mp hn with h | h
+        · exact absurd h hne
+        · exact h
+      exact ih (delKey db m) ⟨n, hn', by rw [keys_delKey]; intro hm; exact hnk (List.mem_filter.mp hm).1⟩
+    · simp only [hc, Bool.false_eq_true, if_false]
+      rfl
+
+/-- copy with renaming, non-strict, in closed form -/
+theorem copy_renaming (db : Box S V) (src : Sel) (tgt : Tgt)
+    (hs : ((resolvePairs (keys db) src tgt false).map (·.1)).Nodup)
+    (ht : ((resolvePairs (keys db) src tgt false).map (·.2)).Nodup) :
+    ∃ r, copy db (some src) (some tgt) false = .ok r
+      ∧ (∀ p ∈ resolvePairs (keys db) src tgt false, lookup r p.2 = lookup db p.1)
+      ∧ (∀ n, n ∉ (resolvePairs (keys db) src tgt false).map (·.2) → lookup r n = none) := by
+  have hin : ∀ p ∈ resolvePairs (keys db) src tgt false, p.1 ∈ keys db := by
+    intro p hp
+    simp only [resolvePairs, Bool.false_eq_true, if_false] at hp
+    simpa using (List.mem_filter.mp hp).2
+  have hl : copyLists (keys db) (some src) (some tgt) false
+      = ((resolvePairs (keys db) src tgt false).map (·.1), (resolvePairs (keys db) src tgt false).map (·.2)) := by
+    simp [copyLists, resolvePairs]
+  -- re-resolving the already resolved tuples gives the same pairs
+  have hre : resolvePairs (keys db) (Sel.names ((resolvePairs (keys db) src tgt false).map (·.1)))
+      (Tgt.names ((resolvePairs (keys db) src tgt false).map (·.2))) false = resolvePairs (keys db) src tgt false := by
+    have : resolvePairs (keys db) (Sel.names ((resolvePairs (keys db) src tgt false).map (·.1)))
+        (Tgt.names ((resolvePairs (keys db) src tgt false).map (·.2))) false
+        = (((resolvePairs (keys db) src tgt false).map (·.1)).zip ((resolvePairs (keys db) src tgt false).map (·.2))).filter
+            (fun p => (keys db).contains p.1) := by
+      simp [resolvePairs, Sel.resolve, Tgt.resolve]
+    rw [this, zip_map_fst_snd]
+    apply List.filter_eq_self.mpr
+    intro p hp
+    simpa using hin p hp
+  obtain ⟨r1, h1, h2, h3⟩ := renamePairs_simultaneous db _ hs hin ht
+  refine ⟨keep r1 (some (Sel.names ((resolvePairs (keys db) src tgt false).map (·.2)))) false, ?_, ?_, ?_⟩
+  · simp only [copy, hl, rename, hre, h1, bind, Except.bind, pure, Except.pure]
+  · intro p hp
+    rw [keep_lookup]
+    have hv : lookup r1 p.2 = lookup db p.1 := h2 p hp
+    obtain ⟨v, hv'⟩ := lookup_of_mem_keys db p.1 (hin p hp)
+    have hk : p.2 ∈ keys r1 := by
+      have := lookup_some_mem (hv.trans hv')
+      exact List.mem_map_of_mem (f := (·.1)) this
+    have : (resolveSources (keys r1) (Sel.names ((resolvePairs (keys db) src tgt false).map (·.2))) false).contains p.2 = true := by
+      simp only [resolveSources, Sel.resolve, Bool.false_eq_true, if_false, List.contains_eq_mem, decide_eq_true_eq]
+      exact List.mem_filter.mpr ⟨List.mem_map_of_mem (f := (·.2)) hp, by simpa using hk⟩
+    rw [if_pos this, hv]
+  · intro n hn
+    rw [keep_lookup]
+    have : (resolveSources (keys r1) (Sel.names ((resolvePairs (keys db) src tgt false).map (·.2))) false).contains n = false := by
+      simp only [resolveSources, Sel.resolve, Bool.false_eq_true, if_false, List.contains_eq_mem, decide_eq_false_iff_not]
+      intro hm; exact hn (List.mem_filter.mp hm).1
+    rw [this]
+    rfl
+
+end
+
 end IrisVerif.Databox
